@@ -55,6 +55,11 @@ class AbstractDiscreteTimeOnlineInterpreter(AbstractOnlineInterpreter, DiscreteT
         self.update_counter = int(0)
         self.previous_time = float(0.0)
         self.sampling_violation_counter = int(0)
+
+        # the input variables go back to their initial values (an update that leaves a
+        # variable out keeps its last value)
+        for var_name in self.ast.free_vars:
+            self.ast.var_object_dict[var_name] = self.ast.create_var_from_name(var_name)
         return
 
     def set_variable_to_ast_from_dataset(self, dataset):
